@@ -486,4 +486,6 @@ theorem source_tyRecoveryRequests : GeneratedSrc.tyRecoveryRequests = ExpectedSr
 theorem source_trackerMax : GeneratedSrc.trackerMax = ExpectedSrc.trackerMax := by rfl
 theorem source_trackerMin : GeneratedSrc.trackerMin = ExpectedSrc.trackerMin := by rfl
 
+theorem source_kcReceive : GeneratedSrc.kcReceive = ExpectedSrc.kcReceive := by rfl
+
 end Firebolt.C08
